@@ -425,7 +425,8 @@ Fixpoint read_vertices_bin (e : endian) (bs : list built) (size : nat) (n : nat)
       dor '(rows, rest') <- read_vertices_bin e bs size n' rest;
       Ok (row :: rows, rest')
   end.
-Fixpoint read_vertices_ascii (bs : list built) (lines : list (list tok)) (n : nat)
+(* np = number of vertex properties: a line with fewer fields is reported (io.ErrUnexpectedEOF) *)
+Fixpoint read_vertices_ascii (bs : list built) (np : nat) (lines : list (list tok)) (n : nat)
   : result (list (list (list N)) * list (list tok)) :=
   match lines with
   | [] => match n with O => Ok ([], []) | S _ => Err EEof end
@@ -434,9 +435,10 @@ Fixpoint read_vertices_ascii (bs : list built) (lines : list (list tok)) (n : na
       | O => Ok ([], lines)
       | S n' =>
           match l with
-          | [] => read_vertices_ascii bs ls n          (* empty line: skipped, not counted *)
-          | _ => dor row <- mapR (fun b => read_ascii_row b l) bs;
-                 dor '(rows, rest) <- read_vertices_ascii bs ls n';
+          | [] => read_vertices_ascii bs np ls n          (* empty line: skipped, not counted *)
+          | _ => if (List.length l <? np)%nat then Err EEof else
+                 dor row <- mapR (fun b => read_ascii_row b l) bs;
+                 dor '(rows, rest) <- read_vertices_ascii bs np ls n';
                  Ok (row :: rows, rest)
           end
       end
@@ -610,7 +612,7 @@ Definition read_body (gs : list group) (unspecified : bool) (h : header) (b : bo
     match h_fmt h, b with
     | ASCII, BodyAscii lines =>
         dor bs <- build_readers false gs unspecified props;
-        dor '(rows, rest) <- read_vertices_ascii bs lines n;
+        dor '(rows, rest) <- read_vertices_ascii bs (List.length props) lines n;
         match fe with
         | None => Ok (bs, rows, iota n, [], TPoint)
         | Some f =>
